@@ -57,9 +57,16 @@ def gen_reopen(rng, cfg):
         if c["store_algorithm"] == cfg["store_algorithm"]:
             c["store_algorithm"] = "sha256"
         expect = "reject"
-    elif r < 0.83:
+    elif r < 0.80:
         kind = "namespace"
         c["store_metadata_namespace"] = rng.choice([n for n in NAMESPACES if n != cfg["store_metadata_namespace"]])
+        expect = "reject"
+    elif r < 0.83:
+        # a different string that a "tolerant" comparison would call the same
+        kind = "namespace-near"
+        ns = cfg["store_metadata_namespace"]
+        c["store_metadata_namespace"] = rng.choice([ns + " ", " " + ns, ns + "\n", "\t" + ns, ns.upper() if ns.upper() != ns else ns + "/",
+                                                    ns.rstrip("#/") if ns.rstrip("#/") != ns else ns + "#"])
         expect = "reject"
     elif r < 0.88:
         kind = "missing-key"
